@@ -231,13 +231,16 @@ def z_fmod(a, b):
     return a - b * z_truncdiv(a, b)
 
 
+SQRT_SQUARE_AXIOM = [True]  # contracts that never need sqrt(x)^2 = x switch the (non-linear) half of the axiom off: every query gets cheaper
+
+
 def real_uf(name):
     f = sym.uf(name, z3.RealSort(), z3.RealSort())
     if name == "sqrt":
         def g(x):
             y = f(x)
             if sym._CTX is not None:  # the two facts about sqrt the proofs use, instantiated at the term
-                sym._CTX.add_axiom(z3.Implies(x >= 0, z3.And(y * y == x, y >= 0)))
+                sym._CTX.add_axiom(z3.Implies(x >= 0, z3.And(y * y == x, y >= 0) if SQRT_SQUARE_AXIOM[0] else y >= 0))
             return y
         return g
     return lambda x: f(x)
@@ -932,12 +935,25 @@ def stack(tensors, dim=0):
 
 _SUM = {}
 _SUMK = itertools.count()
+_DEPTH = [0]
+
+
+def _bound_var():
+    """bound variable of a sum being built: named by the NESTING DEPTH of the construction (a sum built while the body of
+    another sum is being evaluated gets a different name, so the inner binder can never capture the outer variable; sums
+    that are not nested in each other share names, which makes two constructions of the same sum syntactically identical
+    terms — an instantiated fact and a goal then match without any reasoning)"""
+    return z3.Int(f"k!sum{_DEPTH[0]}")
 
 
 def sum_term(n, body_of_k, sort):
     """Σ_{k=0}^{n-1} body(k) as an uninterpreted functional of the lambda (equal bodies = equal sums)."""
-    k = z3.Int(f"k!sum{next(_SUMK)}")  # fresh: a shared name would be captured by an enclosing sum
-    body = body_of_k(k)
+    k = _bound_var()
+    _DEPTH[0] += 1
+    try:
+        body = body_of_k(k)
+    finally:
+        _DEPTH[0] -= 1
     nz = as_z3_int(n)
     cn = concrete(lift(nz))
     if cn is not None and cn <= 8:
@@ -997,7 +1013,15 @@ def sum_(x, dim=None, keepdim=False, dtype=None):
 
 
 def _nested_sum(e, idx, dims, keep, keepdim, xs, n, src, odt, sort):
-    bound = [z3.Int(f"k!sum{next(_SUMK)}") for j in range(len(dims))]
+    bound = [z3.Int(f"k!sum{_DEPTH[0] + j}") for j in range(len(dims))]
+    _DEPTH[0] += len(dims)
+    try:
+        return _nested_sum_body(e, idx, dims, keep, keepdim, xs, n, src, odt, sort, bound)
+    finally:
+        _DEPTH[0] -= len(dims)
+
+
+def _nested_sum_body(e, idx, dims, keep, keepdim, xs, n, src, odt, sort, bound):
     full_ = [None] * n
     if keepdim:
         for k in keep:
